@@ -1,40 +1,18 @@
-import EqsigVerif.Model.SignalSM
-import EqsigVerif.GenGolden.CacheTable
+import EqsigVerif.Handlers.SignalSM
 /-!
-Validation runner for `Model/SignalSM.lean` (used by `validate.py`).
+Validation runner for `Model/SignalSM.lean` (used by `validate.py`); a thin stdin/stdout wrapper around
+`Handlers.SignalSM.historyReport` (the same code the native driver serves as `cache_history`).
 
 stdin, one request per line:   `<variant>|<op names…>|<quantities…>`
-stdout, one line per request:  `ok|<q>:<T/F> …|alias:<T/F>|rtalias:<T/F>|sfalias:<T/F>|content:<c1>,<c2>,…`  or  `bad|<msg>`
-(`content`: how often the k-th array the caller passed has been written, by the caller or through the object)
+stdout, one line per request:  `ok|<q>:<T/F> …|alias:<T/F>|rtalias:<T/F>|sfalias:<T/F>|content:<c1>,<c2>,…`  or `bad|<msg>`
 
 The history `<op names>` (syntax of `parseOp`) is run on a new object (`init tbl 64`); then every listed
-quantity is read *on the resulting state* (the model is pure, so this is the read on a copy) and the model's
-freshness prediction is printed; `alias` = `_values` shared with a caller-held array, `rtalias` /`sfalias` the
-same for `_response_times` / `_smooth_fa_freqs`.
-
-variants (`;`-separated list of corruptions applied to the golden table):
-  golden | drop:<row>:<guard> | dropall:<guard> | store:<row>:<input>:<copy|reference|inplace> | nonpts:<row>
-  | dropwrite:<row>:<input>:<copy|reference|inplace>
+quantity is read on the resulting state and the model's freshness prediction is printed; `alias` = `_values`
+shared with a caller-held array, `rtalias`/`sfalias` the same for `_response_times`/`_smooth_fa_freqs`;
+`content`: how often the k-th array the caller passed has been written (by the caller or through the object).
+`<variant>` = `;`-separated corruptions of the golden table (see `Handlers.SignalSM.applyVariant`).
 -/
-open EqsigVerif.Model.SignalSM
-
-def parseStore : String → Except String Store
-  | "copy" => pure .copy | "reference" => pure .reference | "inplace" => pure .inplace
-  | s => throw s!"bad store {s}"
-
-def dropWrite (tbl : CacheTable) (row inp : String) (st : Store) : CacheTable :=
-  { tbl with methods := tbl.methods.map fun m =>
-      if m.name == row then { m with writes := m.writes.filter fun w => !(w.input == inp && w.store == st) } else m }
-
-def applyVariant (tbl : CacheTable) (v : String) : Except String CacheTable :=
-  match v.splitOn ":" with
-  | ["golden"] => pure tbl
-  | ["drop", row, g] => pure (tbl.dropClear row g)
-  | ["dropall", g] => pure (tbl.dropClearEverywhere g)
-  | ["store", row, inp, st] => do pure (tbl.setStore row inp (← parseStore st))
-  | ["dropwrite", row, inp, st] => do pure (dropWrite tbl row inp (← parseStore st))
-  | ["nonpts", row] => pure (tbl.dropNpts row)
-  | _ => throw s!"bad variant {v}"
+open EqsigVerif.Model.SignalSM EqsigVerif.Handlers.SignalSM
 
 def words (s : String) : List String := (s.splitOn " ").filter (· != "")
 
@@ -42,17 +20,10 @@ def handle (line : String) : Except String String := do
   match line.splitOn "|" with
   | [variant, ops, qs] =>
     let tbl ← (variant.splitOn ";").foldlM applyVariant EqsigVerif.GenGolden.cacheTable
-    let (s, _) ← runNamed tbl (init tbl defaultLen) (words ops)
-    let preds ← (words qs).mapM fun q =>
-      if (findQ tbl q).isSome then
-        let r := step tbl s (.read q)
-        match r.2 with
-        | some o => pure s!"{q}:{if isFresh tbl r.1 o then "T" else "F"}"
-        | none => throw "no observation"
-      else throw s!"unknown quantity {q}"
-    let al (inp : String) := if s.held.contains (s.ident inp) then "T" else "F"
-    let contents := ",".intercalate (s.held.reverse.map fun k => toString (s.content k))
-    pure s!"ok|{" ".intercalate preds}|alias:{al valuesInput}|rtalias:{al "_response_times"}|sfalias:{al "_smooth_fa_freqs"}|content:{contents}"
+    match ← historyReport tbl (words ops) (words qs) with
+    | [preds, [a, r, f], content] =>
+      pure s!"ok|{" ".intercalate preds}|alias:{a}|rtalias:{r}|sfalias:{f}|content:{",".intercalate content}"
+    | _ => throw "unexpected report"
   | _ => throw "expected 3 fields"
 
 partial def loop (h : IO.FS.Stream) (out : IO.FS.Stream) : IO Unit := do
